@@ -10,7 +10,7 @@ use proptest::prelude::*;
 use serde::{Deserialize, Serialize};
 use std::cmp::Ordering;
 
-pub const RULE: &str = "enumerated: every operator (17 broadcasting + 6 dot) x shape {scalar-scalar, list-scalar, scalar-list, list-list} x ordered pair of element types {number, string, boolean, null, list, record, mixed} x deterministic representatives (lengths 0,1,3, mismatched, ill-typed element at position k>0); random: operator x operands with random contents (numbers incl. NaN, +-inf, +-0), lengths 0..8, correlated lengths; whole-number bases -12..12 (and 10, 2, 1024, ...) raised to whole exponents up to +-1100 and to fractions 1/k in all four shapes; strings with supplementary-plane characters next to U+E000..U+FFFF. Operands are materialised in a fresh heap, `l OP r` - and `l OP l`, the same heap object on both sides - is evaluated through parser and evaluator and compared with a harness model applying an independent scalar operator per element. Non-trivial = a non-empty list operand with at least one successful element operation, or a designed failure (length mismatch / ill-typed element at position > 0); distinct by (operator, operands).";
+pub const RULE: &str = "enumerated: every operator (17 broadcasting + 6 dot) x shape {scalar-scalar, list-scalar, scalar-list, list-list} x ordered pair of element types {number, string, boolean, null, list, record, mixed} x deterministic representatives (lengths 0,1,3, mismatched, ill-typed element at position k>0); random: operator x operands with random contents (numbers incl. NaN, +-inf, +-0), lengths 0..8, correlated lengths; whole-number bases -12..12 (and 10, 2, 1024, ...) raised to whole exponents up to +-1100 and to fractions 1/k in all four shapes; strings with supplementary-plane characters next to U+E000..U+FFFF. Operands are materialised in a fresh heap, `l OP r` - and `l OP l`, the same heap object on both sides - is evaluated through parser and evaluator and compared with a harness model applying an independent scalar operator per element. For the six arithmetic operators the compound forms `l OP (r OP2 l)`, `l OP (r OP r)`, `(l OP r) OP2 l` and operands written as pipelines (`(l into id) OP r`, `l OP (r into id)`, `([l] via id)[0] OP r`) must give the operator applied to the values of the operands, and l and r must read unchanged afterwards. Non-trivial = a non-empty list operand with at least one successful element operation, or a designed failure (length mismatch / ill-typed element at position > 0); distinct by (operator, operands).";
 pub const ASSUMPTIONS: &[&str] = &[
     "IEEE-754 results are taken from Rust's own f64 operators (+ - * / % powf), the arithmetic the statement names",
     "for and/or with a left operand that already decides the result and a non-boolean right operand the statement does not say whether the right operand is inspected; the oracle accepts either outcome there",
@@ -242,6 +242,64 @@ impl Check for Broadcast {
                 got_alias,
                 want_alias
             );
+        }
+        // compound expressions: the value of `l OP (r OP2 l)` is the operator applied to the value
+        // of its operands, whatever those operands look like (parenthesised sums are not
+        // re-associated, operands that are pipelines are not special)
+        const ARITH: [Op; 6] = [Op::Add, Op::Sub, Op::Mul, Op::Div, Op::Mod, Op::Pow];
+        if ARITH.contains(&c.op) {
+            let op2 = ARITH[(hash_str(&format!("{:?}", c)) % 6) as usize];
+            let nest = |outer: Op, a: &MV, inner: Expect, inner_left: bool| -> Option<Expect> {
+                match inner {
+                    Expect::Value(v) => Some(if inner_left { model(outer, &v, a) } else { model(outer, a, &v) }),
+                    Expect::Error => Some(Expect::Error),
+                    Expect::ValueOrError(_) => None,
+                }
+            };
+            let forms: Vec<(String, Option<Expect>)> = vec![
+                (format!("l {} (r {} l)", c.op.text(), op2.text()), nest(c.op, &c.l, model(op2, &c.r, &c.l), false)),
+                (format!("l {} (r {} r)", c.op.text(), c.op.text()), nest(c.op, &c.l, model(c.op, &c.r, &c.r), false)),
+                (format!("(l {} r) {} l", c.op.text(), op2.text()), nest(op2, &c.l, model(c.op, &c.l, &c.r), true)),
+                (format!("(l into keep_c11) {} r", c.op.text()), Some(want.clone())),
+                (format!("l {} (r into keep_c11)", c.op.text()), Some(want.clone())),
+                (format!("([l] via keep_c11)[0] {} r", c.op.text()), Some(want.clone())),
+            ];
+            let _ = sess.eval_src("keep_c11 = v => v");
+            for (src2, want2) in forms {
+                let Some(want2) = want2 else { continue };
+                let got2 = sess.probe(&src2);
+                let ok2 = match (&want2, &got2) {
+                    (Expect::Value(w), Ok(g)) | (Expect::ValueOrError(w), Ok(g)) => w.same_nanclass(g),
+                    (Expect::Error, Err(_)) | (Expect::ValueOrError(_), Err(_)) => true,
+                    _ => false,
+                };
+                if !ok2 {
+                    let form = src2.replace(c.op.text(), "OP").replace(op2.text(), "OP");
+                    fail!(
+                        format!("compound:{}:{}:{}", form, sh, if got2.is_ok() { "wrong-value-or-missing-error" } else { "error-instead-of-value" }),
+                        "`{}` with l = {} and r = {} evaluated to {:?}; applying the operators to the values of their operands gives {:?}",
+                        src2,
+                        c.l.to_source(false),
+                        c.r.to_source(false),
+                        got2,
+                        want2
+                    );
+                }
+            }
+        }
+        // evaluating operators has no effect on their operands
+        for (name, orig) in [("l", &c.l), ("r", &c.r)] {
+            match sess.probe(name) {
+                Ok(v) if v.same_nanclass(orig) => {}
+                other => fail!(
+                    format!("operand-changed:{}:{}", c.op.text(), sh),
+                    "after evaluating `l {} r` and its variants, {} = {} reads as {:?}",
+                    c.op.text(),
+                    name,
+                    orig.to_source(false),
+                    other
+                ),
+            }
         }
         // dot operators never return a list
         if is_dot && matches!(got, Ok(MV::List(_))) {
